@@ -7,10 +7,10 @@ from vf.algebra import next_prime, pname, interp
 PROPERTY = 'C15'
 LEVEL = 'model_checking'
 BOUNDS = {'quick': dict(configs='all (m,t), m<=5, 2t<m (also non-maximal t)', primes='smallest prime > m, 101, 2^61-1', batch=2,
-                        prf_bound='field order, and 2^10 (small masks)'),
+                        prf_bound='field order, and 2^10 (small masks)', ext_fields='GF(8), GF(9) with (m,t) in {(3,1),(5,2),(6,2)}: unit PRF outputs (one subset, one index, every non-zero value)'),
           'thorough': dict(configs='all (m,t), m<=7, 2t<m', primes='smallest prime > m, 101, 2^61-1, 2^127-1', batch=3,
                            prf_bound='field order, and 2^10')}
-OUTSIDE = ['m > 7', 'extension fields', 'NumPy variants (C37)', 'the PRF itself (C17): outputs are arbitrary values in range(bound), equal for equal key and input']
+OUTSIDE = ['m > 7', 'extension fields beyond GF(8), GF(9) (GF(16) in the thorough tier), where one PRF output at a time is non-zero (linearity in the PRF outputs is by inspection)', 'NumPy variants (C37)', 'the PRF itself (C17): outputs are arbitrary values in range(bound), equal for equal key and input']
 ASSUMPTIONS = ['PRF contract: deterministic function of (key, input), outputs in range(bound) (C17)']
 LEVEL_TEXT = ('Bounded symbolic model checking of the real PRSS code: each subset PRF output is a solver variable shared by all '
               'members; obligations (Lagrange conditions computed by an independent oracle) state that the m parties\' '
@@ -68,6 +68,75 @@ def h_prss(env):
     env.eq('deterministic', again[0].value, shares[i][0])
 
 
+def h_prss_ext(env):
+    """extension fields: one PRF output (subset S, index j) takes an arbitrary field value, all others are 0 (value forks). The sharing code is
+    GF(q)-linear in the PRF outputs (it only adds them and multiplies by constants), so these unit cases generate the general one."""
+    import itertools as it
+    P = env.params
+    m, t, char, deg = P['m'], P['t'], P['char'], P['deg']
+    from vf import kit
+    mods = kit.import_plain('mpyc.thresha', 'mpyc.finfields', 'mpyc.gfpx')
+    party = kit.install(env, mods, 0, prf_stub=False)
+    thresha, ff = party.thresha, party.finfields
+    env.encoded(thresha.pseudorandom_share, thresha.pseudorandom_share_zero, thresha._f_S_i.__wrapped__)
+    F = ff.GF(ff.find_irreducible(char, deg))
+    q = F.order
+    subsets = list(it.combinations(range(m), m - t))
+    d = t
+    sel = env.fresh('subset', 0, len(subsets))
+    idx = env.fresh('index', 0, max(d, 1))
+    val = env.fresh('value', 1, q)
+    sel, idx, val = (v.__index__() if env.mode == 'sym' else v for v in (sel, idx, val))
+
+    class UnitPRF:
+        def __init__(self, k):
+            self.k = k
+
+        def __call__(self, uci, n=None):
+            n_ = 1 if n is None else n
+            out = [val if (self.k == sel and j == idx) else 0 for j in range(n_)]
+            return out[0] if n is None else out
+    xs = [F(i + 1) for i in range(m)]
+
+    def interp0(points):
+        """value at 0 of the polynomial through the points (library field arithmetic, C20)"""
+        tot = F(0)
+        for a, (xa, ya) in enumerate(points):
+            lam = F(1)
+            for b, (xb, _) in enumerate(points):
+                if a != b:
+                    lam = lam * xb / (xb - xa)
+            tot = tot + lam * ya
+        return tot
+
+    def interp_at(points, x):
+        tot = F(0)
+        for a, (xa, ya) in enumerate(points):
+            lam = F(1)
+            for b, (xb, _) in enumerate(points):
+                if a != b:
+                    lam = lam * (x - xb) / (xa - xb)
+            tot = tot + lam * ya
+        return tot
+    ys, zs = [], []
+    for i in range(m):
+        prfs = {frozenset(S): UnitPRF(k_) for k_, S in enumerate(subsets) if i in S}
+        ys.append(thresha.pseudorandom_share(F, m, i, prfs, b'u', 1)[0])
+        zs.append(thresha.pseudorandom_share_zero(F, m, i, prfs, b'u', 1)[0])
+    pts = list(zip(xs, ys))
+    secret = F(val) if idx == 0 else F(0)          # pseudorandom_share asks each PRF for one value (index 0)
+    env.check('secret', interp0(pts[:t + 1]) == secret)
+    for j in range(t + 1, m):
+        env.check(f'degree_t[{j}]', interp_at(pts[:t + 1], xs[j]) == ys[j])
+    zpts = list(zip(xs, zs))
+    env.check('zero', interp0(zpts[:2 * t + 1]) == F(0))
+    for j in range(2 * t + 1, m):
+        env.check(f'degree_2t[{j}]', interp_at(zpts[:2 * t + 1], xs[j]) == zs[j])
+    env.check('zero_sharing_not_trivial', any(z != F(0) for z in zs) or d == 0)
+    z = env.fresh('z', 0, 2)
+    env.check('marker', z >= 0)
+
+
 def h_twin(env):
     """twin: zero-sharing claimed to have degree <= t (false for t >= 1): must come back violated."""
     m, t, p = 3, 1, 101
@@ -96,5 +165,10 @@ def instances(tier):
                         pass
                     out.append(Inst(f'prss[m={m},t={t},p={pname(p)},bound={bound}]', h_prss,
                                     dict(m=m, t=t, p=p, n=2 if tier == 'quick' else 3, bound=bound), timeout=300))
+    for (char, deg) in ((2, 3), (3, 2)) if tier == 'quick' else ((2, 3), (3, 2), (2, 4)):
+        for (m_, t_) in ((3, 1), (5, 2), (6, 2)):
+            if char ** deg <= m_:
+                continue
+            out.append(Inst(f'prss_ext[GF({char}^{deg}),m={m_},t={t_}]', h_prss_ext, dict(m=m_, t=t_, char=char, deg=deg), timeout=900, max_paths=20000))
     out.append(Inst('twin_zero_degree_t', h_twin, {}, twin=True, expect='violated'))
     return out
